@@ -3,13 +3,27 @@ package hopserver
 // C20 — a server presents the first virtual host whose pattern matches.
 
 import (
+	"bytes"
+	"encoding/hex"
+	"fmt"
 	"io"
+	"net"
+	"reflect"
+	"sync"
 	"testing"
+	"time"
+	"unicode/utf8"
+	"unsafe"
 
 	"github.com/sirupsen/logrus"
 	"pgregory.net/rapid"
 	"verif.local/vlib"
 	"verif.local/vlib/refglob"
+
+	"hop.computer/hop/certs"
+	"hop.computer/hop/config"
+	"hop.computer/hop/keys"
+	"hop.computer/hop/transport"
 )
 
 type c20vCase struct {
@@ -60,4 +74,377 @@ func c20vGen(t *rapid.T) c20vCase {
 
 func TestVerifC20VHosts(t *testing.T) {
 	vlib.Drive(t, vlib.Spec[c20vCase]{ID: "C20", Quick: 10000, Gen: c20vGen, Run: c20vRun})
+}
+
+// ---------------------------------------------------------------------------
+// The certificate callbacks that NewHopServer really installs.
+//
+// VirtualHosts.Match is one half of "a server presents the first virtual host whose
+// pattern matches the requested name"; the other half is WHAT the server hands to the
+// matcher. The requested name reaches the server as a certs.Name (type byte + label
+// bytes, both chosen by the client; Name.ReadFrom validates neither), and the closure
+// that NewHopServer puts into transport.ServerConfig.GetCertificate turns it into the
+// matcher's input. A case is a server configuration (0..5 Names blocks with generated
+// patterns, with or without the server-level certificate that becomes the trailing "*"
+// host, 0..2 HiddenModeVHostNames) and 1..4 requested names: every type byte 0..255,
+// labels of arbitrary bytes (non-UTF-8, NUL, '*', empty, 4 and 16 bytes long). The
+// server is built by the real NewHopServer (real UDP socket on 127.0.0.1, closed at the
+// end of the case; Serve is not started) and the callbacks are read out of the transport
+// server it made (white-box: reflect on transport.Server.config).
+//
+// Oracle: no panic; GetCertificate returns the certificate of the FIRST virtual host whose
+// pattern glob-matches the label bytes (reference matcher), and no certificate together
+// with an error when none matches (the transport dereferences the certificate whenever
+// the error is nil); GetCertList returns, for the hidden-mode names in order, the
+// certificate of the first virtual host that matches each (names that match nothing are
+// left out).
+
+type c20cReq struct {
+	Type  int    `json:"type"`
+	Label []byte `json:"label"` // nil = the zero Name's label
+}
+
+type c20cCase struct {
+	Patterns [][]byte  `json:"patterns"` // Names blocks, in order (bytes: patterns need not be valid UTF-8)
+	Default  bool      `json:"default"`  // server-level Key/Certificate present (-> trailing "*" host)
+	Hidden   [][]byte  `json:"hidden,omitempty"`
+	Reqs     []c20cReq `json:"reqs"`
+}
+
+type c20cChain struct {
+	key          *keys.X25519KeyPair
+	leaf, interm *certs.Certificate
+	rawLeaf      []byte
+}
+
+const c20cMaxNames = 5
+
+var (
+	c20cOnce   sync.Once
+	c20cChains []c20cChain // c20cMaxNames for the Names blocks + 1 for the default host
+	c20cErr    error
+)
+
+func c20cSetup() error {
+	c20cOnce.Do(func() {
+		logrus.SetOutput(io.Discard)
+		logrus.SetLevel(logrus.PanicLevel)
+		for i := 0; i <= c20cMaxNames; i++ {
+			dns := fmt.Sprintf("vhost%d.example", i)
+			rootKey := keys.GenerateNewSigningKeyPair()
+			root, err := certs.SelfSignRoot(&certs.Identity{PublicKey: rootKey.Public, Names: []certs.Name{certs.DNSName("root." + dns)}}, rootKey)
+			if err == nil {
+				err = root.ProvideKey((*[32]byte)(&rootKey.Private))
+			}
+			if err != nil {
+				c20cErr = err
+				return
+			}
+			intKey := keys.GenerateNewSigningKeyPair()
+			interm, err := certs.IssueIntermediate(root, &certs.Identity{PublicKey: intKey.Public, Names: []certs.Name{certs.DNSName("intermediate." + dns)}})
+			if err == nil {
+				err = interm.ProvideKey((*[32]byte)(&intKey.Private))
+			}
+			if err != nil {
+				c20cErr = err
+				return
+			}
+			key := keys.GenerateNewX25519KeyPair()
+			leaf, err := certs.IssueLeaf(interm, &certs.Identity{PublicKey: key.Public, Names: []certs.Name{certs.DNSName(dns)}})
+			if err != nil {
+				c20cErr = err
+				return
+			}
+			raw, err := leaf.Marshal()
+			if err != nil {
+				c20cErr = err
+				return
+			}
+			c20cChains = append(c20cChains, c20cChain{key: key, leaf: leaf, interm: interm, rawLeaf: raw})
+		}
+		// the environment must allow what NewHopServer does (it exits the process when it cannot listen)
+		pc, err := net.ListenPacket("udp", "127.0.0.1:0")
+		if err != nil {
+			c20cErr = err
+			return
+		}
+		pc.Close()
+	})
+	return c20cErr
+}
+
+// c20cCallbacks reads the callbacks out of the transport server that NewHopServer built.
+func c20cCallbacks(s *transport.Server) (tc transport.ServerConfig, err error) {
+	defer func() {
+		if r := recover(); r != nil {
+			err = fmt.Errorf("reflect on transport.Server.config: %v", r)
+		}
+	}()
+	f := reflect.ValueOf(s).Elem().FieldByName("config")
+	if !f.IsValid() || f.Type() != reflect.TypeOf(transport.ServerConfig{}) {
+		return tc, fmt.Errorf("transport.Server has no field config of type transport.ServerConfig")
+	}
+	tc = *(*transport.ServerConfig)(unsafe.Pointer(f.UnsafeAddr()))
+	if tc.GetCertificate == nil || tc.GetCertList == nil {
+		return tc, fmt.Errorf("NewHopServer installed no GetCertificate / GetCertList")
+	}
+	return tc, nil
+}
+
+func c20cBuild(c c20cCase) (*HopServer, error) {
+	sc := &config.ServerConfig{ListenAddress: "127.0.0.1:0", InsecureSkipVerify: true, HandshakeTimeout: 5 * time.Second}
+	for i, p := range c.Patterns {
+		ch := c20cChains[i]
+		sc.Names = append(sc.Names, config.NameConfig{Pattern: string(p), Key: ch.key, Certificate: ch.leaf, Intermediate: ch.interm})
+	}
+	if c.Default {
+		ch := c20cChains[c20cMaxNames]
+		sc.Key, sc.Certificate, sc.Intermediate = ch.key, ch.leaf, ch.interm
+	}
+	for _, h := range c.Hidden {
+		sc.HiddenModeVHostNames = append(sc.HiddenModeVHostNames, string(h))
+	}
+	return NewHopServer(sc)
+}
+
+// c20cWhich maps a returned certificate to the index of its virtual host (-1 none, -2 foreign).
+func c20cWhich(c c20cCase, cert *transport.Certificate) int {
+	if cert == nil {
+		return -1
+	}
+	for i := range c.Patterns {
+		if bytes.Equal(cert.RawLeaf, c20cChains[i].rawLeaf) {
+			return i
+		}
+	}
+	if c.Default && bytes.Equal(cert.RawLeaf, c20cChains[c20cMaxNames].rawLeaf) {
+		return len(c.Patterns)
+	}
+	return -2
+}
+
+func c20cRun(c c20cCase, v *vlib.Verdict) {
+	if len(c.Patterns) > c20cMaxNames {
+		v.Discard = true
+		return
+	}
+	var srv *HopServer
+	var err error
+	if vlib.Guard(v, func() { srv, err = c20cBuild(c) }) {
+		return
+	}
+	if err != nil || srv == nil || srv.Server == nil {
+		v.Inconclusive = fmt.Sprintf("NewHopServer: %v", err)
+		return
+	}
+	defer srv.Server.Close()
+	tc, err := c20cCallbacks(srv.Server)
+	if err != nil {
+		v.Inconclusive = err.Error()
+		return
+	}
+	// the virtual host table as the server configuration states it
+	pats := make([]string, 0, len(c.Patterns)+1)
+	for _, p := range c.Patterns {
+		pats = append(pats, string(p))
+	}
+	if c.Default {
+		pats = append(pats, "*")
+	}
+	first := func(name string) int {
+		for i, p := range pats {
+			if refglob.Match(p, name) {
+				return i
+			}
+		}
+		return -1
+	}
+	v.Labelf("vhosts=%d", len(pats))
+	interesting := false
+	for ri, r := range c.Reqs {
+		name := certs.Name{Type: certs.IDType(byte(r.Type)), Label: r.Label}
+		want := first(string(r.Label))
+		switch {
+		case r.Type > 3:
+			v.Label("name-type:unassigned")
+		default:
+			v.Labelf("name-type:%d", r.Type)
+		}
+		if !utf8.Valid(r.Label) {
+			v.Label("label:not-utf8")
+		}
+		if len(r.Label) == 0 {
+			v.Label("label:empty")
+		}
+		// does the printed form of the name (hex dump / dotted address) select another host than the label does?
+		for _, d := range c20cDisplayForms(r.Label) {
+			if first(d) != want {
+				v.Label("display-form-would-select-another-vhost")
+				interesting = true
+				break
+			}
+		}
+		if r.Type > 3 || want > 0 || (want < 0 && len(pats) > 0) {
+			interesting = true
+		}
+		var cert *transport.Certificate
+		var cerr error
+		if vlib.Guard(v, func() { cert, cerr = tc.GetCertificate(transport.ClientHandshakeInfo{ServerName: name}) }) {
+			return
+		}
+		got := c20cWhich(c, cert)
+		switch {
+		case got == -2:
+			v.Failf("C20:server-callback-foreign-certificate", "request #%d: GetCertificate(type %#x, label %q) over %q returned a certificate of no configured virtual host", ri, r.Type, r.Label, pats)
+			return
+		case got != want:
+			v.Failf("C20:server-callback-wrong-vhost", "request #%d: GetCertificate(type %#x, label %q) over %q presented virtual host %d (err %v), the first host whose pattern matches the label is %d", ri, r.Type, r.Label, pats, got, cerr, want)
+			return
+		case want < 0 && cerr == nil:
+			v.Failf("C20:server-callback-no-match-without-error", "request #%d: GetCertificate(type %#x, label %q) over %q: no pattern matches, the callback returned neither a certificate nor an error", ri, r.Type, r.Label, pats)
+			return
+		}
+	}
+	if len(c.Hidden) > 0 {
+		var wantList []int
+		for _, h := range c.Hidden {
+			if i := first(string(h)); i >= 0 {
+				wantList = append(wantList, i)
+			}
+		}
+		var list []*transport.Certificate
+		var lerr error
+		if vlib.Guard(v, func() { list, lerr = tc.GetCertList() }) {
+			return
+		}
+		switch {
+		case len(c.Hidden) > len(pats):
+			v.Label("certlist:more-hidden-names-than-vhosts(not judged)")
+		case len(wantList) == 0:
+			v.Label("certlist:no-hidden-name-matches")
+			if lerr == nil && len(list) > 0 {
+				v.Failf("C20:server-callback-certlist-wrong-vhosts", "GetCertList with hidden-mode names %q over %q returned %d certificates, no name matches a pattern", c.Hidden, pats, len(list))
+				return
+			}
+		default:
+			v.Label("certlist:judged")
+			var gotList []int
+			for _, ct := range list {
+				gotList = append(gotList, c20cWhich(c, ct))
+			}
+			if lerr != nil || fmt.Sprint(gotList) != fmt.Sprint(wantList) {
+				v.Failf("C20:server-callback-certlist-wrong-vhosts", "GetCertList with hidden-mode names %q over %q returned virtual hosts %v (err %v), the first matching hosts are %v", c.Hidden, pats, gotList, lerr, wantList)
+				return
+			}
+		}
+	}
+	v.NonTrivial = interesting
+}
+
+// c20cDisplayForms lists the ways a name's label is PRINTED (certs.Name.String: hex dump,
+// dotted / colon address) - strings that are not the requested name.
+func c20cDisplayForms(label []byte) []string {
+	out := []string{hex.EncodeToString(label)}
+	if len(label) == 4 || len(label) == 16 {
+		out = append(out, net.IP(label).String())
+	}
+	return out
+}
+
+func c20cGen(t *rapid.T) c20cCase {
+	alphabet := []byte{'a', 'b', '*', '.', '1', 'f', '6', 0x00, 0xff, 0xc3, 0x80, 0x7f}
+	bs := func(tag string, min, max int) []byte {
+		return rapid.SliceOfN(rapid.SampledFrom(alphabet), min, max).Draw(t, tag)
+	}
+	var c c20cCase
+	nreq := rapid.SampledFrom([]int{1, 1, 2, 3, 4}).Draw(t, "nreq")
+	for i := 0; i < nreq; i++ {
+		var r c20cReq
+		switch rapid.IntRange(0, 9).Draw(t, "type-kind") {
+		case 0, 1, 2:
+			r.Type = 0
+		case 3, 4:
+			r.Type = 1
+		case 5:
+			r.Type = 2
+		case 6:
+			r.Type = 3
+		case 7:
+			r.Type = rapid.SampledFrom([]int{4, 5, 0x7f, 0x80, 0xfe, 0xff}).Draw(t, "type")
+		default:
+			r.Type = rapid.IntRange(0, 255).Draw(t, "type")
+		}
+		switch rapid.IntRange(0, 9).Draw(t, "label-kind") {
+		case 0:
+			r.Label = nil // the zero Name a client sends when it has no server name configured
+		case 1:
+			r.Label = []byte{}
+		case 2:
+			r.Label = bs("label", 4, 4)
+		case 3:
+			r.Label = bs("label", 16, 16)
+		case 4:
+			r.Label = rapid.SliceOfN(rapid.Byte(), 1, 6).Draw(t, "label")
+		default:
+			r.Label = bs("label", 1, 6)
+		}
+		c.Reqs = append(c.Reqs, r)
+	}
+	// a pattern: free, or cut out of a requested label, or cut out of a printed form of a requested label
+	pattern := func(tag string) []byte {
+		r := c.Reqs[rapid.IntRange(0, len(c.Reqs)-1).Draw(t, tag+"-of")]
+		var base []byte
+		switch rapid.IntRange(0, 5).Draw(t, tag+"-kind") {
+		case 0, 1:
+			return bs(tag, 0, 5)
+		case 2, 3:
+			base = r.Label
+		default:
+			forms := c20cDisplayForms(r.Label)
+			base = []byte(forms[rapid.IntRange(0, len(forms)-1).Draw(t, tag+"-form")])
+		}
+		if len(base) == 0 {
+			return append([]byte{}, base...)
+		}
+		i := rapid.IntRange(0, len(base)).Draw(t, tag+"-i")
+		j := rapid.IntRange(i, len(base)).Draw(t, tag+"-j")
+		switch rapid.IntRange(0, 4).Draw(t, tag+"-cut") {
+		case 0:
+			return append([]byte{}, base...)
+		case 1:
+			return append(append([]byte{}, base[:j]...), '*')
+		case 2:
+			return append([]byte{'*'}, base[i:]...)
+		case 3:
+			return append(append([]byte{'*'}, base[i:j]...), '*')
+		}
+		return append(append(append([]byte{}, base[:i]...), '*'), base[j:]...)
+	}
+	np := rapid.SampledFrom([]int{0, 1, 1, 2, 2, 3, 3, 4, 5}).Draw(t, "npatterns")
+	for i := 0; i < np; i++ {
+		c.Patterns = append(c.Patterns, pattern(fmt.Sprintf("pat%d", i)))
+	}
+	c.Default = rapid.IntRange(0, 3).Draw(t, "default") != 0
+	nh := rapid.SampledFrom([]int{0, 0, 1, 2}).Draw(t, "nhidden")
+	for i := 0; i < nh; i++ {
+		c.Hidden = append(c.Hidden, pattern(fmt.Sprintf("hidden%d", i)))
+	}
+	return c
+}
+
+func TestVerifC20ServerCallbacks(t *testing.T) {
+	if err := c20cSetup(); err != nil {
+		t.Fatalf("VERIF-MACHINERY C20 server callbacks: set-up: %v", err)
+	}
+	// self-test of the white-box access: a plain server yields both callbacks
+	srv, err := c20cBuild(c20cCase{Default: true})
+	if err != nil {
+		t.Fatalf("VERIF-MACHINERY C20 server callbacks: NewHopServer: %v", err)
+	}
+	_, err = c20cCallbacks(srv.Server)
+	srv.Server.Close()
+	if err != nil {
+		t.Fatalf("VERIF-MACHINERY C20 server callbacks: %v", err)
+	}
+	vlib.Drive(t, vlib.Spec[c20cCase]{ID: "C20", Quick: 6000, Gen: c20cGen, Run: c20cRun})
 }
